@@ -86,6 +86,73 @@ def width(e):
     raise IllFormed('unknown node kind %s' % k)
 
 
+EQUAL_WIDTH_OPS = ('+', '-', '*', '&', '|', '^', '==')
+SHIFT_OPS = ('<<', '>>', 'a>>', '<<<', '>>>')
+
+
+def typecheck(e, path='', out=None):
+    """Typing rules of the IR (statement of C11). Returns a list of (rule, path, detail)."""
+    if out is None:
+        out = []
+    k = kind(e)
+    try:
+        if k in ('ExprInt', 'ExprId'):
+            w = width(e)
+            if not isinstance(w, int) or w <= 0:
+                out.append(('width-undetermined', path, '%s has width %r' % (k, w)))
+        elif k == 'ExprMem':
+            if not isinstance(e.size, int) or e.size <= 0 or e.size % 8:
+                out.append(('mem-size', path, 'memory cell of %r bits' % (e.size,)))
+            typecheck(e.arg, path + '/addr', out)
+        elif k == 'ExprSlice':
+            typecheck(e.arg, path + '/slice', out)
+            w = width(e.arg)
+            if not (isinstance(e.start, int) and isinstance(e.stop, int)) or not (0 <= e.start < e.stop <= w):
+                out.append(('slice-outside-operand', path, '[%s:%s] of a %d-bit operand' % (e.start, e.stop, w)))
+        elif k == 'ExprCompose':
+            pos = 0
+            for a, s, t in sorted(e.args, key=lambda a: (a[1], a[2])):
+                typecheck(a, path + '/compose', out)
+                if s != pos or t <= s:
+                    out.append(('compose-slots-do-not-tile', path, 'slots %r' % ([(x[1], x[2]) for x in e.args],)))
+                    break
+                pos = t
+                wa = width(a)
+                if wa < t - s:
+                    out.append(('compose-operand-narrower-than-slot', path, '%d-bit operand in slot [%d:%d]' % (wa, s, t)))
+        elif k == 'ExprCond':
+            typecheck(e.cond, path + '/cond', out)
+            typecheck(e.src1, path + '/arm', out)
+            typecheck(e.src2, path + '/arm', out)
+            if width(e.src1) != width(e.src2):
+                out.append(('cond-arms-differ', path, 'arms of %d and %d bits' % (width(e.src1), width(e.src2))))
+        elif k == 'ExprOp':
+            for a in e.args:
+                typecheck(a, path + '/op' + e.op, out)
+            if not e.args:
+                out.append(('operator-without-operands', path, e.op))
+            elif e.op in EQUAL_WIDTH_OPS:
+                ws = [width(a) for a in e.args]
+                if len(set(ws)) > 1:
+                    out.append(('operand-widths-differ', path, '%s over widths %r' % (e.op, ws)))
+                if e.op == '-' and len(e.args) > 2 or e.op == '==' and len(e.args) != 2:
+                    out.append(('arity', path, '%s with %d operands' % (e.op, len(e.args))))
+            elif e.op in SHIFT_OPS:
+                if len(e.args) != 2:
+                    out.append(('arity', path, '%s with %d operands' % (e.op, len(e.args))))
+                elif width(e.args[1]) > width(e.args[0]):
+                    out.append(('shift-count-wider', path, '%s count of %d bits on %d bits' % (e.op, width(e.args[1]), width(e.args[0]))))
+        elif k == 'ExprAff':
+            out.append(('assignment-as-value', path, 'ExprAff nested in an expression'))
+        else:
+            out.append(('unknown-node', path, k))
+    except IllFormed as ex:
+        out.append(('width-undetermined', path, repr(ex)))
+    except Exception as ex:
+        out.append(('width-undetermined', path, repr(ex)))
+    return out
+
+
 class Env(object):
     """Valuation: identifiers by name, flat little-endian byte memory (total functions)."""
 
